@@ -19,7 +19,7 @@ from vf.xmodel import Schema, Rop, Shadow, Bound
 SHARDS = {'quick': 16, 'thorough': 64}
 TIMEOUT = {'quick': 1500, 'thorough': 7200}
 MUST_HIT = ['Call.python-function', 'Call.python-bridge', 'Call.python-class-operation',
-            'Call.python-instance-operation', 'Call.derived-attribute', 'Call.enumerator', 'Call.constant',
+            'Call.python-instance-operation', 'Call.derived-attribute', 'Call.derived-attribute-outside-state', 'Call.enumerator', 'Call.constant',
             'Call.nested', 'Call.recursive', 'Call.bare-return', 'Call.no-return', 'Call.in-where-clause',
             'Call.in-loop-condition', 'Scope.caller-variable-kept', 'State.compared']
 MUST_REACH = ['bridgepoint/ooaofooa.py:mk_function', 'bridgepoint/ooaofooa.py:mk_bridge',
@@ -579,6 +579,29 @@ def run_case(ctx, rng):
             bound.inst[h].N += 1
             if bound.inst[h].der != want2:
                 raise Mismatch('derived-attribute/not-recomputed', 'K.der not recomputed after N changed')
+            # ... and after a change of state outside the instance that its body reads (the first K2
+            # instance's attribute; the K2 population itself)
+            k2 = list(shadow.extent['K2'])
+            if k2:
+                shadow.rows[k2[0]]['der'] += 5
+                bound.inst[k2[0]].der += 5
+                how = 'an attribute of another instance, read by the body, changed'
+            else:
+                inst2 = comp.new('K2', der=7)
+                ids[0] += 1
+                h2 = shadow.new('K2', {'Id': inst2.Id, 'der': 7})
+                bound.inst[h2] = inst2
+                bound.hid[id(inst2)] = h2
+                how = 'the first instance of the class the body selects from was created'
+            try:
+                want3 = cr.derived(h)
+            except oalsem.RefError:
+                continue
+            ctx.hit('Call.derived-attribute-outside-state')
+            got3 = bound.inst[h].der
+            if got3 != want3:
+                raise Mismatch('derived-attribute/not-recomputed', 'K.der reads %r, its body specifies %r: not '
+                               'recomputed after %s (%s)' % (got3, want3, how, gen.der_text))
         ctx.case((text, desc), cr.max_depth > 1, sample=dict(element=desc, body=e.text, returns=exp))
         ctx.count('invocations')
 
